@@ -31,6 +31,27 @@ def boom_where(*args, **kwargs):
     raise FieldError("field 'rate' out of range", where="rate")
 
 
+def _raiser(exc_type, *exc_args):
+    def factory(*args, **kwargs):
+        if exc_type is AssertionError:
+            assert not args and not kwargs and False, "settings out of range"
+        raise exc_type(*exc_args)
+
+    return factory
+
+
+boom_assert = _raiser(AssertionError)
+boom_key = _raiser(KeyError, "missing")
+boom_type = _raiser(TypeError, "wrong type")
+boom_attr = _raiser(AttributeError, "no such attribute")
+boom_import = _raiser(ImportError, "no backend")
+boom_stop = _raiser(StopIteration)
+boom_os = _raiser(OSError, 2, "no such file")
+boom_lookup = _raiser(LookupError, "lookup")
+boom_runtime = _raiser(RuntimeError, "runtime")
+boom_notimpl = _raiser(NotImplementedError)
+
+
 def boom(*args, **kwargs):
     raise ValueError("factory failed on purpose")
 
